@@ -40,8 +40,57 @@ func (f *Frame) doCall(b *ssa.BasicBlock, in *ssa.Call, c *ssa.CallCommon, fnv V
 	if fnv.Fn != nil {
 		return f.callStatic(b, in, fnv.Fn, args, fnv.Bind, st, g, c.Signature().Results())
 	}
-	// dynamic call through a function value
-	return f.unknownCall(b, in, c, "dynamic call through function value of type "+c.Value.Type().String(), true, st, g, c.Signature().Results())
+	// dynamic call through a function value: everything may change; the results are named as values of an
+	// uninterpreted function of the callee, the arguments and a per-call epoch (no determinism across calls is
+	// assumed: every call has its own epoch), so that a contract can say "the result is this callback's result"
+	res := f.unknownCall(b, in, c, "dynamic call through function value of type "+c.Value.Type().String(), true, st, g, c.Signature().Results())
+	f.nameDynResults(c.Signature(), fnv, args, res, st, g)
+	return res
+}
+
+func dynFnName(e *Enc, sig *types.Signature, i int) string {
+	name := fmt.Sprintf("dyn$%s$%d", sanitize(typeKey(sig)), i)
+	if !e.declared[name] {
+		var as []string
+		as = append(as, "Int")
+		for j := 0; j < sig.Params().Len(); j++ {
+			as = append(as, e.sortOf(sig.Params().At(j).Type()))
+		}
+		as = append(as, "Int")
+		e.declRaw(name, fmt.Sprintf("(declare-fun %s (%s) %s)", name, strings.Join(as, " "), e.sortOf(sig.Results().At(i).Type())))
+	}
+	return name
+}
+
+func (f *Frame) nameDynResults(sig *types.Signature, fnv Val, args []Val, res Val, st *State, g string) {
+	e := f.e
+	e.heap("G$dyn", "Int")
+	ep := e.freshConst("G$dyn", "Int")
+	st.heap["G$dyn"] = ep
+	if fnv.T == "" || sig.Variadic() {
+		return
+	}
+	ts := []string{fnv.T}
+	for _, a := range args {
+		if a.T == "" || a.T == "INTERIOR" || a.Tup != nil {
+			return
+		}
+		ts = append(ts, a.T)
+	}
+	ts = append(ts, ep)
+	one := func(i int, v Val) {
+		if v.T == "" {
+			return
+		}
+		e.assume(implies(g, eq(v.T, app(dynFnName(e, sig, i), ts...))))
+	}
+	if res.Tup != nil {
+		for i, v := range res.Tup {
+			one(i, v)
+		}
+	} else if sig.Results().Len() == 1 {
+		one(0, res)
+	}
 }
 
 func (f *Frame) resultVal(hint string, rs *types.Tuple) Val {
@@ -537,6 +586,9 @@ func (f *Frame) contractCall(b *ssa.BasicBlock, in *ssa.Call, callee *ssa.Functi
 	}
 	post := f.ctxFor(callee, args, rvals, st, before, g)
 	for _, en := range sp.Ensures {
+		if en.BodyOnly {
+			continue
+		}
 		t, ok := evalClauseAt(post, en)
 		if !ok {
 			continue // the clause talks about a local of the callee: it is an internal assertion, not part of what callers learn
